@@ -169,6 +169,18 @@ func unmarshalJSONValue[T constraint.ParserInput](input T, r Rule) (Size, error)
 	}
 }
 
+// lowerASCII converts A-Z to lower case and leaves everything else as it is.
+// strings.ToLower also folds U+0130 and U+212A to ASCII letters, so "un\u0130t" would be taken for "unit".
+func lowerASCII(s string) string {
+	b := []byte(s)
+	for i, c := range b {
+		if c >= 'A' && c <= 'Z' {
+			b[i] = c + ('a' - 'A')
+		}
+	}
+	return string(b)
+}
+
 func prepareNumber(input string) (number, unit string) {
 	const (
 		sp   = ' '
@@ -216,7 +228,7 @@ keys:
 		}
 		// string is guaranteed by encoding/json package
 		key := t.(string)
-		switch strings.ToLower(key) {
+		switch lowerASCII(key) {
 		case ObjectKeyValue:
 			if value != nil {
 				return 0, ErrDuplicatedValueKey
